@@ -27,6 +27,13 @@ def invocations(p, bs, backup, out):
            ('resize2fs -P -f', [T['resize2fs'], '-P', '-f', p]), ('e2freefrag -c', [T['e2freefrag'], '-c', '4', p]),
            ('e2image -ra', [T['e2image'], '-ra', p, out]), ('e2image -Qa', [T['e2image'], '-Qa', p, out]),
            ('mke2fs -n ext4', [T['mke2fs'], '-n', '-F', '-t', 'ext4', '-O', 'quota', '-d', '/nonexistent', p])]
+    # the names under which tune2fs and dumpe2fs are also installed (they look at argv[0]): e2label <dev> prints the label, e2mmpstatus <dev> the MMP state
+    for alias, real in (('e2label', 'tune2fs'), ('e2mmpstatus', 'dumpe2fs')):
+        ln = os.path.join(scratch(), alias)
+        try:
+            if not os.path.lexists(ln): os.symlink(T[real], ln)
+        except OSError: pass
+        if os.path.lexists(ln): inv.append((alias, [ln, p]))
     return inv
 
 def pipeline(job):
@@ -44,7 +51,7 @@ def pipeline(job):
     st0 = os.stat(p); sig0 = (st0.st_mtime_ns, st0.st_size)
     for label, argv in invocations(p, bs, backup, out):
         if not full and label in ('e2image', 'e2image -Q', 'dumpe2fs -b', 'e2freefrag', 'debugfs -c', 'debugfs -c -n', 'dumpe2fs -o superblock', 'dumpe2fs -f -g', 'dumpe2fs -m', 'e2fsck -nfvtt', 'e2fsck -n -b',
-                                  'resize2fs -P -f', 'e2fsck -n -E bmap2extent,discard', 'e2freefrag -c', 'e2image -ra', 'e2image -Qa', 'mke2fs -n ext4', 'debugfs modifying request without -w'):
+                                  'resize2fs -P -f', 'e2fsck -n -E bmap2extent,discard', 'e2freefrag -c', 'e2image -ra', 'e2image -Qa', 'mke2fs -n ext4', 'debugfs modifying request without -w', 'e2label', 'e2mmpstatus'):
             continue
         if os.path.exists(out): os.unlink(out)
         _t = time.time()
